@@ -7,6 +7,7 @@ import (
 	"fmt"
 	"net"
 	"net/http"
+	"net/http/httptest"
 	"net/netip"
 	"os"
 	"path/filepath"
@@ -21,6 +22,7 @@ import (
 	"github.com/DataDog/datadog-traceroute/result"
 	"github.com/DataDog/datadog-traceroute/reversedns"
 	"github.com/DataDog/datadog-traceroute/sack"
+	"github.com/DataDog/datadog-traceroute/server"
 	"github.com/DataDog/datadog-traceroute/traceroute"
 	"github.com/DataDog/datadog-traceroute/udp"
 )
@@ -192,6 +194,31 @@ func labRace(e labEnv) {
 			restoreRun()
 			restoreCk()
 			tags["concurrent_requests_public_ip"]++
+		}
+		// ---- the HTTP server's situation proper: one Server (and the Traceroute object it builds itself) handling several
+		// requests at once, each asking for the source public IP
+		{
+			cache.Cache.Flush()
+			restoreCk := publicip.VerifSetIPCheckers([]string{"http://127.0.0.1:1/"})
+			restoreRun := traceroute.VerifSetRunOnce(func(ctx context.Context, p traceroute.TracerouteParams, port int) (*result.TracerouteRun, error) {
+				return &result.TracerouteRun{Hops: []*result.TracerouteHop{{TTL: 1, IPAddress: net.IP{8, 8, 8, 8}, RTT: 1, IsDest: true}}}, nil
+			})
+			srv := server.NewServer()
+			var wg sync.WaitGroup
+			for i := 0; i < 4; i++ {
+				wg.Add(1)
+				go func() {
+					defer wg.Done()
+					ctx, cancel := context.WithTimeout(context.Background(), 40*time.Millisecond)
+					defer cancel()
+					req := httptest.NewRequest(http.MethodGet, "/traceroute?target=8.8.8.8&traceroute-queries=1&e2e-queries=1&source-public-ip=true&reverse-dns=false&timeout=20", nil).WithContext(ctx)
+					srv.TracerouteHandler(httptest.NewRecorder(), req)
+				}()
+			}
+			wg.Wait()
+			restoreRun()
+			restoreCk()
+			tags["server_concurrent_requests"]++
 		}
 		// ---- allocators
 		{
